@@ -71,7 +71,9 @@ def _dirs(root, form, name):
         p = os.path.join(root, "n1_" + name, "n2", name)
         return p, p
     if form == "symlinked_parent":
-        real = os.path.join(root, "real_" + name)
+        # the target of the link lives at another depth than the link (a relative link target computed on the
+        # lexical path would only work by accident for a sibling directory)
+        real = os.path.join(root, "vol", "disk0", "real_" + name)
         os.makedirs(real, exist_ok=True)
         link = os.path.join(root, "link_" + name)
         if not os.path.islink(link):
